@@ -120,9 +120,9 @@ type Wrap struct {
 	End   uint16  `serix:""`
 }
 
-type Shapes []Shape      // lenPrefix uint8; max 3; must contain a Circle; no dups, lexical order, at most one of each type
-type SortedU16 []uint16  // lenPrefix uint8; sorted by the encoder (lexical ordering + no duplicates)
-type UniqueNames []Name  // lenPrefix uint16; no duplicates (map based validator)
+type Shapes []Shape     // lenPrefix uint8; max 3; must contain a Circle; no dups, lexical order, at most one of each type
+type SortedU16 []uint16 // lenPrefix uint8; sorted by the encoder (lexical ordering + no duplicates)
+type UniqueNames []Name // lenPrefix uint16; no duplicates (map based validator)
 
 type Coll struct {
 	Nums   []uint32    `serix:",lenPrefix=uint16,maxLen=5"`
@@ -268,7 +268,9 @@ type node struct {
 	must      []int // impl indexes that must occur
 }
 
-func num(k kind, bits int) *node { return &node{kind: k, bits: bits, code: -1, name: fmt.Sprintf("%s%d", k, bits)} }
+func num(k kind, bits int) *node {
+	return &node{kind: k, bits: bits, code: -1, name: fmt.Sprintf("%s%d", k, bits)}
+}
 
 var (
 	nBool = &node{kind: kBool, code: -1, name: "bool"}
